@@ -171,6 +171,12 @@ def build_module(rnd, max_depth=3):
     S["p_int"] = site("parameter-int", INT, "p0", depth=rnd.choice([0, 1, 2]))
     S["p_enum"] = site("parameter-enum", E("Ee"), "p0", depth=rnd.choice([0, 1]))
     S["ev"] = site("enum-value", INT, "Gg", Atoms([], [], {}, []), nonneg=True, depth=rnd.choice([0, 1, 2]))
+    # constant virtual fields that an EARLIER structure reads through static references (Foo.kci):
+    # their definitions are then first reached through the reference, not in source order
+    S["kci"] = site("virtual-constant-int", INT, "kci", Atoms([], [], {}, []), depth=rnd.choice([1, 2, 3]))
+    S["kcb"] = site("virtual-constant-bool", BOOL, "kcb", Atoms([], [], {}, []), depth=rnd.choice([1, 2, 3]))
+    # [requires] on a type nested inside another type
+    S["nreq"] = site("nested-struct-requires", BOOL, "Inner", Atoms(["na", "nb"], [], {}, ["na"]))
 
     def render(sites_map, override=None):
         L = []
@@ -202,8 +208,16 @@ def build_module(rnd, max_depth=3):
         emit("  1 [+n]  UInt:8[]  y", "pp_yy")
         emit("  if %s:" % sites_map["pp_cond"].expr.text(), "pp_y")
         emit("    0 [+1]  UInt  z", "pp_y")
+        emit("struct Early:")
+        emit("  0 [+1]  UInt  q")
+        emit("  let ei = Foo.kci + 1")
+        emit("  let eb = Foo.kcb")
         emit("struct Foo:", "Foo")
         emit("  [requires: %s]" % sites_map["sreq"].expr.text(), "Foo")
+        emit("  struct Inner:", "Inner")
+        emit("    [requires: %s]" % sites_map["nreq"].expr.text(), "Inner")
+        emit("    0 [+1]  UInt  na", "Inner")
+        emit("    1 [+1]  UInt  nb", "Inner")
         emit("  0 [+1]  UInt  a", "a")
         emit("  1 [+1]  UInt  b", "b")
         emit("  2 [+1]  Ee  e", "e")
@@ -216,6 +230,9 @@ def build_module(rnd, max_depth=3):
         emit("  let vi = %s" % sites_map["vi"].expr.text(), "vi")
         emit("  let vb = %s" % sites_map["vb"].expr.text(), "vb")
         emit("  let ve = %s" % sites_map["ve"].expr.text(), "ve")
+        emit("  let kci = %s" % sites_map["kci"].expr.text(), "kci")
+        emit("  let kcb = %s" % sites_map["kcb"].expr.text(), "kcb")
+        emit("  20 [+2]  Inner  inner", "inner")
         emit("  if %s:" % sites_map["c_cond"].expr.text(), "c0")
         emit("    5 [+1]  UInt  c0", "c0")
         emit("  %s [+%s]  UInt  d0" % (sites_map["off"].expr.text(), "1"), "d0")
@@ -245,8 +262,10 @@ def mutate(rnd, S):
         atoms = Atoms(["n", "x"], [], {"Ee": ["k"]}, ["x"])
     if key == "req":
         atoms = Atoms(["this"], [], {}, [])
-    if key == "ev":
+    if key in ("ev", "kci", "kcb"):
         atoms = Atoms([], [], {}, [])
+    if key == "nreq":
+        atoms = Atoms(["na", "nb"], [], {}, ["na"])
     nodes = list(site.expr.nodes())
     path, node = rnd.choice(nodes)
     bad, t2 = g.wrong(node.typ, atoms, rnd.choice([0, 1]))
